@@ -60,7 +60,6 @@ func replayQM(in *core.Lines, args []string, seed int64, sum *core.Summary) erro
 		if !c.Wtd {
 			kinds = []bool{false, true}
 		}
-		sum.Cases++
 		for _, wt := range kinds {
 			b1 := &builder{c: &netCase{N: c.N, Dir: c.Dir, Wtd: c.Wtd, Edges: c.L1}, ids: ids}
 			b2 := &builder{c: &netCase{N: c.N, Dir: c.Dir, Wtd: c.Wtd, Edges: c.L2}, ids: ids}
@@ -94,6 +93,7 @@ func replayQM(in *core.Lines, args []string, seed int64, sum *core.Summary) erro
 				for _, l := range labels {
 					comms = append(comms, byLabel[l])
 				}
+				sum.Cases++ // one case = one (layer pair, container, partition, weights, resolutions) evaluation
 				if len(labels) > 1 && len(labels) < c.N {
 					sum.Nontrivial++
 				}
